@@ -30,6 +30,10 @@ EXPLANATION = (
 
 def check(ctx: Ctx, rep: Report):
     rep.rule("C07.R1", "no fragment survives a transmission: the partial buffer is cleared before every transport write", 4)
+    rep.rule("C07.R4", "every received datagram reaches the reassembly test and the validator (no ad-hoc filtering before it)", 2)
+    from .proto import every_datagram_validated as _shared_C07_R4, proto_classes as _pcs
+    for _ci in _pcs(ctx):
+        _shared_C07_R4(ctx, rep, "C07.R4", _ci)
     rep.rule("C07.R2", "fragments are joined only on exact remaining length, then validated as a whole; buffer cleared; no other reader", 4)
     rep.rule("C07.R3", "stored remainder = expected - length of the caught exception, timer re-armed; raise sites announce (len(data), length byte + overhead) with the header present", 7)
     prog = ctx.prog
